@@ -1094,6 +1094,9 @@ func (r *c18Run) opMap1(c *cursor) *Violation {
 	case 2, 3: // Map[GRelA]: GetRelation / SetRelation
 		m := generic.NewMap[GRelA](G)
 		e, ok := r.pickWhere(c, func(e ecs.Entity) bool { return K.Has(e, r.K.ids[c18RelA]) })
+		if any, ok2 := r.pick(c); ok2 && c.n(5) == 0 {
+			e, ok = any, true // now and then an entity that may lack the relation component: refused by both
+		}
 		if !ok {
 			return nil
 		}
@@ -1102,6 +1105,11 @@ func (r *c18Run) opMap1(c *cursor) *Violation {
 			tg = ecs.Entity{}
 		}
 		var gt, kt, gt2 ecs.Entity
+		if alive := K.Alive(e); !alive || !K.Has(e, r.K.ids[c18RelA]) {
+			v, _ := r.both("Map.GetRelation on an entity without the relation component", func() { m.GetRelation(e) }, func() { K.Relations().Get(e, r.K.ids[c18RelA]) })
+			r.stats["getrelation-without-relation"]++
+			return v
+		}
 		v, p := r.both("Map.SetRelation/GetRelation", func() { m.SetRelation(e, tg); gt = m.GetRelation(e); gt2 = m.GetRelationUnchecked(e) },
 			func() { K.Relations().Set(e, r.K.ids[c18RelA], tg); kt = K.Relations().Get(e, r.K.ids[c18RelA]) })
 		if v != nil || p {
